@@ -327,5 +327,36 @@ pub fn search(tier: &str, seed: u64, s: &mut Search) {
                 }
             }
         }
+        // a pattern with a viewBox: its content lives in viewBox coordinates whatever patternContentUnits says,
+        // so the objectBoundingBox spelling must resolve exactly like the userSpaceOnUse spelling
+        if i % 5 == 2 {
+            let pu = *rng.pick(&["userSpaceOnUse", "objectBoundingBox"]);
+            let (pw, ph) = if pu == "objectBoundingBox" { ("0.5".to_string(), "0.4".to_string()) } else { (rng.range(12, 40).to_string(), rng.range(12, 40).to_string()) };
+            let (vw, vh) = (rng.range(4, 24), rng.range(4, 24));
+            let par = *rng.pick(&["xMidYMid meet", "none", "xMinYMax slice", "xMaxYMid meet"]);
+            let inherit = rng.chance(1, 3);
+            let pat = |cu: &str| {
+                let content = format!(r#"<rect width="{}" height="{}" fill="teal"/><circle cx="{}" cy="{}" r="{}" fill="orange"/>"#, vw / 2, vh / 2, vw * 3 / 4, vh * 3 / 4, (vw.min(vh) / 5).max(1));
+                if inherit {
+                    // the content units come from a referenced pattern
+                    format!(r##"<pattern id="base" patternContentUnits="{cu}"/><pattern id="d" xlink:href="#base" patternUnits="{pu}" width="{pw}" height="{ph}" viewBox="0 0 {vw} {vh}" preserveAspectRatio="{par}">{content}</pattern>"##)
+                } else {
+                    format!(r##"<pattern id="d" patternUnits="{pu}" patternContentUnits="{cu}" width="{pw}" height="{ph}" viewBox="0 0 {vw} {vh}" preserveAspectRatio="{par}">{content}</pattern>"##)
+                }
+            };
+            let users = format!(
+                r##"<rect x="{}" y="{}" width="{}" height="{}" fill="url(#d)"/><circle cx="140" cy="100" r="{}" fill="url(#d)" stroke="black"/>"##,
+                rng.range(5, 40), rng.range(5, 40), rng.range(30, 80), rng.range(30, 70), rng.range(15, 45)
+            );
+            let va = format!("{HDR}<defs>{}</defs>{users}</svg>", pat("objectBoundingBox"));
+            let vb = format!("{HDR}<defs>{}</defs>{users}</svg>", pat("userSpaceOnUse"));
+            if let (Some((_, qa)), Some((_, qb))) = (render(&va, &o), render(&vb, &o)) {
+                s.case("pattern-viewbox", &va, qa.data().chunks(4).any(|p| p[3] != 0));
+                let (ok, why) = crate::rend::similar(&qa, &qb, 4);
+                if !ok {
+                    s.finding("oracle:C18:pattern:viewbox-content-units-not-ignored", &format!("a pattern with a viewBox renders differently with patternContentUnits=objectBoundingBox and =userSpaceOnUse: {}", why), &va);
+                }
+            }
+        }
     }
 }
